@@ -77,3 +77,146 @@ Lemma policy_independent_of_flush_drop c1 c2 f seen e pend stack pv x :
   ma_next_key (S f) c2 (mkMA seen (e :: pend) stack true pv) x =
   ma_next_key f c2 (mkMA seen pend stack true pv) x.
 Proof. intros H. split; apply flush_drops_present; exact H. Qed.
+
+(* ---- the whole flush: what a mapping delivers after its own entries ---- *)
+(* the entries offered during the flush, in order: the pending queue, then the batches newest first *)
+Definition offered (m : ma) : list pending_entry := ma_pending m ++ concat (ma_merge_stack m).
+
+(* "first one wins, silently": an offered entry is delivered iff no earlier delivered key (own keys
+   included: they are in [seen]) has the same fingerprint *)
+Fixpoint survivors (seen : list fp) (entries : list pending_entry) : list pending_entry :=
+  match entries with
+  | [] => []
+  | e :: r => if fp_mem (kn_fp (pe_key e)) seen then survivors seen r
+              else e :: survivors (kn_fp (pe_key e) :: seen) r
+  end.
+
+(* what next_key hands out for an entry: the key events, the key-empty-map-null flag, the value events *)
+Definition handed_out (e : pending_entry) : list ev * bool * list ev :=
+  let fpk := kn_fp (pe_key e) in
+  let events := kn_events (pe_key e) in
+  let value_events := kn_events (pe_val e) in
+  if kemn_direct fpk then (events, true, value_events)
+  else if kemn_one_entry_nullish fpk then
+    match one_entry_map_split events with
+    | Some (_, inner_value) => (first_last events, true, inner_value)
+    | None => (events, false, value_events)
+    end
+  else (events, false, value_events).
+
+Definition flush_measure (m : ma) : nat := length (offered m) + length (ma_merge_stack m).
+
+Lemma concat_length_nil {A} (l : list (list A)) : length (concat ([] :: l)) = length (concat l).
+Proof. reflexivity. Qed.
+
+Lemma nmb_spec stack :
+  match next_merge_batch stack with
+  | None => concat stack = []
+  | Some (b, st') => b <> [] /\ concat stack = b ++ concat st' /\ (length st' < length stack)%nat
+  end.
+Proof.
+  induction stack as [|b r IH]; [reflexivity|]. destruct b as [|e b'].
+  - cbn [next_merge_batch concat app]. destruct (next_merge_batch r) as [[b2 st2]|]; [|exact IH].
+    destruct IH as (H1 & H2 & H3). split; [exact H1|]. split; [exact H2|]. cbn [length]. lia.
+  - cbn [next_merge_batch concat]. split; [discriminate|]. split; [reflexivity|]. cbn [length]. lia.
+Qed.
+
+(* one call of next_key during the flush: the end of the mapping, or the first survivor *)
+Lemma flush_next_key c x : forall fuel m,
+  ma_flushing m = true -> (flush_measure m < fuel)%nat ->
+  match survivors (ma_seen m) (offered m) with
+  | [] => ma_next_key fuel c m x = KEnd (mkMA (ma_seen m) [] [] false (ma_pending_value m)) x
+  | e :: _ =>
+    exists pend' stack',
+      let '(kev, kemn, vev) := handed_out e in
+      ma_next_key fuel c m x =
+        KKey kev kemn (kn_loc (pe_key e))
+             (mkMA (kn_fp (pe_key e) :: ma_seen m) pend' stack' true (Some (vev, pe_ref e))) x
+      /\ survivors (ma_seen m) (offered m)
+         = e :: survivors (kn_fp (pe_key e) :: ma_seen m) (pend' ++ concat stack')
+      /\ (length (pend' ++ concat stack') + length stack' < flush_measure m)%nat
+  end.
+Proof.
+  induction fuel as [|f IH]; intros m Hfl Hm; [lia|].
+  destruct m as [seen pend stack fl pv]. cbn [ma_flushing] in Hfl. subst fl.
+  unfold flush_measure, offered in *. cbn [ma_pending ma_merge_stack ma_seen ma_pending_value] in *.
+  destruct pend as [|e pend].
+  - (* the queue is empty: take the next non-empty batch *)
+    cbn [app] in *.
+    assert (E : ma_next_key (S f) c (mkMA seen [] stack true pv) x =
+                match next_merge_batch stack with
+                | Some (b, stack') => ma_next_key f c (mkMA seen b stack' true pv) x
+                | None => KEnd (mkMA seen [] [] false pv) x
+                end) by reflexivity.
+    rewrite E. pose proof (nmb_spec stack) as NB. destruct (next_merge_batch stack) as [[b st']|].
+    + destruct NB as (Hb & Hc & Hl). rewrite Hc.
+      specialize (IH (mkMA seen b st' true pv) eq_refl).
+      unfold flush_measure, offered in IH. cbn [ma_pending ma_merge_stack ma_seen ma_pending_value] in IH.
+      rewrite Hc in Hm. specialize (IH ltac:(lia)).
+      destruct (survivors seen (b ++ concat st')) as [|e1 r1].
+      { exact IH. }
+      { destruct IH as (p' & s' & IH). exists p', s'. destruct (handed_out e1) as [[kev kemn] vev].
+        destruct IH as (I1 & I2 & I3). split; [exact I1|]. split; [exact I2|]. lia. }
+    + rewrite NB. cbn [survivors]. reflexivity.
+  - (* an entry is waiting *)
+    cbn [app survivors]. destruct (fp_mem (kn_fp (pe_key e)) seen) eqn:Hd.
+    + (* already present: dropped silently *)
+      rewrite (flush_drops_present f c seen e pend stack pv x Hd).
+      specialize (IH (mkMA seen pend stack true pv) eq_refl).
+      unfold flush_measure, offered in IH. cbn [ma_pending ma_merge_stack ma_seen ma_pending_value] in IH.
+      cbn [length app] in Hm. specialize (IH ltac:(lia)).
+      destruct (survivors seen (pend ++ concat stack)) as [|e1 r1].
+      { exact IH. }
+      { destruct IH as (p' & s' & IH). exists p', s'. destruct (handed_out e1) as [[kev kemn] vev].
+        destruct IH as (I1 & I2 & I3). split; [exact I1|]. split; [exact I2|]. cbn [length app]. lia. }
+    + (* delivered *)
+      exists pend, stack. unfold handed_out.
+      cbn [ma_next_key ma_pending ma_flushing ma_seen ma_merge_stack ma_pending_value]. rewrite Hd.
+      destruct (kemn_direct (kn_fp (pe_key e))).
+      { split; [reflexivity|]. split; [reflexivity|]. cbn [length app]. lia. }
+      destruct (kemn_one_entry_nullish (kn_fp (pe_key e))).
+      { destruct (one_entry_map_split (kn_events (pe_key e))) as [[a b]|];
+          (split; [reflexivity|]); (split; [reflexivity|]); cbn [length app]; lia. }
+      split; [reflexivity|]. split; [reflexivity|]. cbn [length app]. lia.
+Qed.
+
+(* all the keys of the flush, by repeated next_key calls (the value is taken in between and does not
+   touch the flush state) *)
+Fixpoint flush_all (n fuel : nat) (c : dcfg) (m : ma) (x : src)
+  : option (list (list ev * bool * loc * list ev * loc)) :=
+  match n with
+  | O => None
+  | S n' =>
+    match ma_next_key fuel c m x with
+    | KEnd _ _ => Some []
+    | KKey kev kemn kloc m' x' =>
+      match ma_pending_value m', flush_all n' fuel c m' x' with
+      | Some (vev, vref), Some l => Some ((kev, kemn, kloc, vev, vref) :: l)
+      | _, _ => None
+      end
+    | _ => None
+    end
+  end.
+
+Definition handed_out_row (e : pending_entry) : list ev * bool * loc * list ev * loc :=
+  let '(kev, kemn, vev) := handed_out e in (kev, kemn, kn_loc (pe_key e), vev, pe_ref e).
+
+(* THE FLUSH THEOREM: after its own entries a mapping delivers exactly the survivors of the offered
+   merge entries -- sources newest first, a key already present (own, or from a newer source)
+   dropped silently, whatever the duplicate-key policy -- each with its recorded value *)
+Theorem flush_delivers_survivors c x : forall n m fuel,
+  ma_flushing m = true -> (flush_measure m < n)%nat -> (flush_measure m < fuel)%nat ->
+  flush_all n fuel c m x = Some (map handed_out_row (survivors (ma_seen m) (offered m))).
+Proof.
+  induction n as [|n IH]; intros m fuel Hfl Hn Hf; [lia|]. cbn [flush_all].
+  pose proof (flush_next_key c x fuel m Hfl Hf) as K.
+  destruct (survivors (ma_seen m) (offered m)) as [|e r] eqn:S.
+  - rewrite K. reflexivity.
+  - destruct K as (p' & s' & K). cbn [map]. unfold handed_out_row at 1.
+    destruct (handed_out e) as [[kev kemn] vev].
+    destruct K as (K1 & K2 & K3). rewrite K1. cbn [ma_pending_value].
+    specialize (IH (mkMA (kn_fp (pe_key e) :: ma_seen m) p' s' true (Some (vev, pe_ref e))) fuel eq_refl).
+    unfold flush_measure, offered in IH. cbn [ma_pending ma_merge_stack ma_seen] in IH.
+    rewrite IH by (unfold flush_measure, offered in *; lia).
+    inversion K2; subst. reflexivity.
+Qed.
